@@ -190,6 +190,7 @@ Proof.
     - cbn. split; [reflexivity | intros _ x Hx; lia].
     - rewrite N.iter_succ. unfold f at 1. cbn [fst snd]. rewrite IH1. split; [reflexivity|].
       intros Ht x Hx. apply andb_true_iff in Ht. destruct Ht as [Ha Hb].
+      rewrite IH1 in Hb.
       destruct (N.eq_dec x k) as [->|Hne]; [exact Hb | apply IH2; [exact Ha | lia]]. }
   intros Ht. apply (proj2 (H n)). exact Ht.
 Qed.
